@@ -25,6 +25,17 @@ class Boom(Exception):
     pass
 
 
+class BoomRuntime(RuntimeError):
+    """what `f` raises may be of ANY class — also one the implementation itself might catch for its own purposes"""
+
+
+class BoomNotImpl(NotImplementedError):
+    pass
+
+
+BOOMS = {'plain': Boom, 'runtime': BoomRuntime, 'notimpl': BoomNotImpl}
+
+
 class Ctl:
     """controller: dictated completion orders"""
     def __init__(self):
@@ -123,7 +134,7 @@ def gen_case(rng):
     return {'xs': xs, 'c': c, 'threads': rng.choice([1, 2, 2, 3, 4, 8]), 'sort': rng.random() < 0.75,
             'fail': fail, 'style': rng.choice(['random', 'random', 'reverse', 'identity', 'rotate']),
             'gen': rng.random() < 0.3, 'which': rng.choice(['new', 'new', 'new', 'old']),
-            'tqdm': rng.random() < 0.4, 'total': total}
+            'tqdm': rng.random() < 0.4, 'total': total, 'boom': rng.choice(['plain', 'plain', 'runtime', 'notimpl'])}
 
 
 class _Hang(BaseException):
@@ -158,7 +169,7 @@ def run_impl(case, rng):
         x = NONE if x is None else x
         calls.append(x)
         if x in case['fail']:
-            raise Boom(x)
+            raise BOOMS[case.get('boom', 'plain')](x)
         return 3 * x + 1
 
     CTL.execs.clear(); CTL.used.clear(); CTL.threads.clear(); CTL.style = case['style']; CTL.rng = rng
@@ -174,7 +185,7 @@ def run_impl(case, rng):
             else:
                 r = it.parallel_map(f, arg, threads=case['threads'])
             box['out'] = {'ok': list(r)}
-        except Boom as e:
+        except (Boom, BoomRuntime, BoomNotImpl) as e:
             box['out'] = {'raise': e.args[0]}
         except Exception as e:  # noqa  (anything else the implementation raises is an outcome to judge, not a harness error)
             box['out'] = {'error': type(e).__name__}
@@ -183,6 +194,8 @@ def run_impl(case, rng):
     out = box.get('out', {'error': 'no result within 20 s'})
     for t in CTL.threads:
         t.join(5)
+    if isinstance(arg, list) and arg != xs:
+        out = dict(out, input_changed=list(arg))        # the caller's list is the caller's: it is read, never written
     return out, sorted(calls), [list(p) for p in CTL.used]
 
 
@@ -223,6 +236,9 @@ def run(ctx, search=False):
             ctx.count('sorted' if case['sort'] or case['which'] == 'old' else 'unsorted')
             ctx.count('raises' if case['fail'] else 'no_raise')
             ctx.count(f"which={case['which']}")
+            if 'input_changed' in out:
+                ctx.fail('parallel_map changed the list it was given', case, {'list_after_the_call': out['input_changed']})
+                out = {k: v for k, v in out.items() if k != 'input_changed'}
             if out != mo:
                 ctx.diverge('parallel_map', case, out, mo)
             # ---- oracle on the real code
@@ -232,6 +248,8 @@ def run(ctx, search=False):
             if case['fail']:
                 if 'raise' not in out or out['raise'] not in case['fail']:
                     ctx.fail('exception of f not propagated', case, out)
+                if any(calls.count(x) > sorted(xs).count(x) for x in set(calls)):
+                    ctx.fail('f was called more than once for an element', case, {'calls': calls})
             elif 'ok' not in out:
                 ctx.fail('parallel_map raised although f did not', case, out)
             else:
@@ -295,23 +313,31 @@ def real_pool_histories(ctx):
             n = rng.choice([0, 1, 3, 7, 12, 25])
             xs = [rng.randint(-9, 9) for _ in range(n)]
             hist.append({'xs': xs, 'threads': rng.choice([2, 2, 3, 4]), 'c': rng.choice([1, 3, 5, 20]), 'which': rng.choice(['new', 'new', 'old']),
-                         'fail': sorted({rng.choice(xs)}) if xs and rng.random() < 0.4 else [], 'sort': True})
-        case = {'history': hist, 'executor': 'real'}
+                         'fail': sorted({rng.choice(xs)}) if xs and rng.random() < 0.4 else [], 'sort': True,
+                         'boom': rng.choice(['plain', 'runtime', 'notimpl'])})
+        # (some histories map over the SAME list object twice)
+        shared = [rng.randint(-9, 9) for _ in range(rng.choice([2, 5, 12]))]
+        keep = list(shared)
+        for c in hist[:2]:
+            if rng.random() < 0.5:
+                c['xs'] = shared; c['fail'] = []
+        case = {'history': [dict(c, xs=list(c['xs'])) for c in hist], 'executor': 'real'}
         ctx.case(case, nontrivial=True); ctx.count('real-pool-history')
         for k, c in enumerate(hist):
             def f(x, c=c):
                 if x in c['fail']:
-                    raise Boom(x)
+                    raise BOOMS[c.get('boom', 'plain')](x)
                 return 3 * x + 1
             box = {}
 
             def call(c=c, f=f):
                 try:
+                    arg = c['xs'] if c['xs'] is shared else list(c['xs'])
                     if c['which'] == 'new':
-                        box['out'] = {'ok': list(th.parallel_map(f, list(c['xs']), threads=c['threads'], sort=True, chunksize=c['c']))}
+                        box['out'] = {'ok': list(th.parallel_map(f, arg, threads=c['threads'], sort=True, chunksize=c['c']))}
                     else:
-                        box['out'] = {'ok': list(it.parallel_map(f, list(c['xs']), threads=c['threads']))}
-                except Boom as e:
+                        box['out'] = {'ok': list(it.parallel_map(f, arg, threads=c['threads']))}
+                except (Boom, BoomRuntime, BoomNotImpl) as e:
                     box['out'] = {'raise': e.args[0]}
                 except Exception as e:  # noqa
                     box['out'] = {'error': f'{type(e).__name__}: {e}'[:120]}
@@ -322,8 +348,10 @@ def real_pool_histories(ctx):
             if c['fail']:
                 if 'raise' not in out or out['raise'] not in c['fail']:
                     ctx.fail('exception of f not propagated', dict(case, call_index=k), out); break
-            elif out != {'ok': [3 * x + 1 for x in c['xs']]}:
+            elif out != {'ok': [3 * x + 1 for x in (keep if c['xs'] is shared else c['xs'])]}:
                 ctx.fail('parallel_map(f, xs) != [f(x) for x in xs] after earlier calls in the same process', dict(case, call_index=k), out); break
+            if shared != keep:
+                ctx.fail('parallel_map changed the list it was given', dict(case, call_index=k), {'list_after_the_call': list(shared)}); break
 
 
 def search(ctx, divergences):
